@@ -30,6 +30,10 @@ class PathBudgetExceeded(Unsupported):
     pass
 
 
+class PathEnd(Exception):
+    """a path that ends by construction (e.g. the 'preserve' leg of a cut loop)"""
+
+
 class AssumptionFailed(Exception):
     """A path on which an ``assume`` is infeasible: silently dropped."""
 
@@ -63,6 +67,7 @@ class Context:
         self.solver_calls = 0
         self.names: dict = {}
         self._axioms: set = set()
+        self.universals: list = []  # (rank, fn(idx) -> z3 Bool): universally quantified facts of this path
 
     # -- naming -------------------------------------------------------------------------
     def fresh_name(self, base: str) -> str:
@@ -170,6 +175,15 @@ class Context:
 
     def event(self, kind: str, payload: Any = None) -> None:
         self.events.append((kind, payload))
+
+
+def instantiate_universals(idx, key=None) -> None:
+    """instantiate every registered universal fact with the given key (default: the rank of idx) at idx"""
+    c = ctx()
+    key = len(idx) if key is None else key
+    for k_, fn in list(c.universals):
+        if k_ == key:
+            c.add_axiom(fn(tuple(idx)))
 
 
 def model_to_dict(m: z3.ModelRef) -> dict:
@@ -469,6 +483,21 @@ class SymInt:
             return lift(r)
         raise Unsupported("SymInt ** symbolic")
 
+    def __rpow__(self, base):
+        """base ** self for a concrete integer base: uninterpreted pow_<base> with its recurrence
+        instantiated at the terms that occur (pow(0)=1, pow(i)=base*pow(i-1) for i>0)"""
+        if not isinstance(base, int) or base < 2:
+            raise Unsupported("symbolic exponent with non-constant base")
+        f = uf(f"pow{base}", z3.IntSort(), z3.IntSort())
+        if _CTX is not None:
+            i = self.t
+            _CTX.add_axiom(z3.And(f(z3.IntVal(0)) == 1, z3.Implies(i > 0, f(i) == base * f(i - 1)), z3.Implies(i >= 0, f(i) >= 1),
+                                  z3.Implies(i >= 0, f(i + 1) == base * f(i))))
+        return SymInt(f(self.t))
+
+    def __format__(self, spec):
+        return str(self.t)
+
     # comparisons
     def _cmp(self, o, op):
         if isinstance(o, (float, SymReal)):
@@ -624,6 +653,9 @@ class SymReal:
     def __float__(self):
         return self  # type: ignore[return-value]
 
+    def __format__(self, spec):
+        return str(self.t)
+
     def __repr__(self):
         return f"SymReal({self.t})"
 
@@ -726,11 +758,18 @@ def explore(
                 continue
             except Unsupported as e:
                 v, outcome = e, "unsupported"
+            except PathEnd as e:
+                v, outcome = e, "cut"
             except RecursionError as e:
                 v, outcome = Unsupported(f"recursion: {e}"), "unsupported"
             except expected_exceptions as e:  # the code under analysis raised
                 v, outcome = e, "raise"
-            if post is not None and outcome != "unsupported":
+                import traceback as _tb
+                try:
+                    e.__shadow_tb__ = "".join(_tb.format_tb(e.__traceback__)[-6:])
+                except Exception:
+                    pass
+            if post is not None and outcome not in ("unsupported", "cut"):
                 try:
                     post(c, outcome, v)
                 except AssumptionFailed:
